@@ -108,24 +108,16 @@ theorem C01_json_struct_fields (fs : Fields) (vs : List Val) (acc ms : List (Str
   obtain ⟨new, h1, h2, _, h4⟩ := rt_fields fc o fs vs acc ms hx hv hnd hacc h
   exact ⟨new, h1, h2, h4⟩
 
-/-! ### what the form cannot express (known findings and exclusions), as model facts -/
+/-! ### what the form cannot express, as model facts -/
 
-/-- a typed byte array held *by value* is encoded as an object but can never be decoded
-(known finding `typed-bytes-by-value`). -/
-theorem C01_json_typed_bytes_by_value_witness (n : Option Nat) (code : Nat) (key : String) (v : Val)
-    (j : Json) (h : mapEncode fc o (.typedBytes false n code key) v = .ok j) :
-    mapDecode fc o (.typedBytes false n code key) j = .error .err := by
-  have hobj : ∃ ms, j = .obj ms := by
-    simp only [mapEncode, encTypedBytes] at h
-    split at h <;> (try split at h) <;> (try split at h) <;> simp at h <;> exact ⟨_, h.symm⟩
-  obtain ⟨ms, rfl⟩ := hobj
-  cases n <;> simp [mapDecode, asStr, bind, Except.bind]
-
-/-- `*[n]byte` without object code is encoded as a hex string but can never be decoded
-(known finding `ptr-to-untyped-byte-array`). -/
-theorem C01_json_ptr_untyped_bytes_witness (n : Nat) (j : Json) :
-    mapDecode fc o (.byteArr true n) j = .error .err := by
-  simp [mapDecode]
+/-- typed byte arrays / typed `[]byte`, by value or through a pointer (after the repairs 689503c /
+0dd60b9): the object `{"type": code, key: "0x.."}` written under `key` — the registered key, or the
+key of the struct field that holds the value — is read back from that key. -/
+theorem C01_json_typed_bytes (viaPtr : Bool) (n : Option Nat) (code : Nat) (key key0 : String) (v : Val)
+    (j : Json) (hp : viaPtr = false ∨ n.isSome = true) (hkey : ¬ key = "type")
+    (hv : ValExpressible fc (.typedBytes viaPtr n code key0) v)
+    (h : encTypedBytes viaPtr n code key v = .ok j) : decTypedBytes n key j = .ok v :=
+  (rt_typedBytes fc viaPtr n code key key0 v j hp hkey hv h).1
 
 /-- a negative `big.Int` is encoded (`-0x5`) and rejected by the decoder: the form is a uint256. -/
 theorem C01_json_negative_bigint_witness :
@@ -178,7 +170,16 @@ example : JsonExpressible (.struct none (.inlined (some 3) (.named "bar" false f
     (.named "x" false false (.uint 8) .nil))) := by decide
 
 /-- shapes the form cannot express are recognised as such. -/
-example : ¬ JsonExpressible (.struct none (.named "a" false false (.typedBytes false (some 4) 5 "k") .nil)) := by decide
+example : ¬ JsonExpressible (.struct none (.named "type" false false (.typedBytes false (some 4) 5 "k") .nil)) := by decide
+example : ¬ JsonExpressible (.typedBytes true none 5 "k") := by decide
+
+/-- the two shapes that were known findings are expressible after the repairs: a typed byte array held
+by value (struct field, slice element, interface alternative) and `*[n]byte` without type settings. -/
+example : JsonExpressible (.struct none
+    (.named "a" false false (.typedBytes false (some 4) 5 "k")
+    (.named "b" false true (.slice nb (.typedBytes false none 6 "data"))
+    (.named "c" true false (.byteArr true 4)
+    (.named "d" false false (.iface (.cons 5 (.typedBytes false (some 4) 5 "k") .nil)) .nil))))) := by decide
 example : ¬ JsonExpressible (.struct (some 1) (.named "type" false false .bool .nil)) := by decide
 example : ¬ JsonExpressible (.map nb (.uint 32) (.str nb)) := by decide
 
@@ -203,7 +204,7 @@ example : JPerm (.obj [("a", .num 1), ("b", .obj [("x", .str "p"), ("y", .arr [.
 accepts it. -/
 example : ∃ j, mapEncode exFc ⟨true⟩ exBasic exVal = .ok j ∧ mapDecode exFc ⟨true⟩ exBasic j = .ok exVal := by
   have h : ∃ j, mapEncode exFc ⟨true⟩ exBasic exVal = .ok j := by
-    simp [mapEncode, encFields, exBasic, exVal, isEmpty, isZero, Val.isNil, typeMember, objSet, inU, inS,
+    simp [mapEncode, encFields, exBasic, exVal, isEmpty, isZero, Val.isNil, typeMember, objSet, inU, inS, JTy.byValueTyped,
       pow2, checkLen, nb, Except.map, bind, Except.bind]
   obtain ⟨j, hj⟩ := h
   exact ⟨j, hj, C01_json_roundtrip exFc ⟨true⟩ exBasic exVal j (by decide) (by decide) hj⟩
